@@ -4,15 +4,17 @@ from vcheck import Case, gnlist, gzlist
 import tgen
 from props.c01_conv import (OPS as CONV_OPS, gen_cases_conv, run_conv, check_conv, oracle_conv, TRIGGERS, WITNESSES)
 from props.c01_w3 import OPS3, gen_cases_w3, run_w3, check_w3, oracle_w3
+from props.c01_conv import mk_dense_opt, mk_sparse_opt
+from props.c01_w4 import gen_cases_w4
 
 PROP = "C01"
 LEVEL = "proof"
-GEN_UNITS = ["GenUtils", "GenUtils2"]     # C01_gather_wrap_dims_generated is stated over the generated gather_wrap_dims
+GEN_UNITS = ["GenUtils", "GenUtils2", "GenKernels", "GenMethods"]     # C01_gather_wrap_dims_generated / C01_sparse_index_generated / C01_khatrirao_generated are stated over generated functions
 COQ_TARGETS = ["Props/C01.vo", "Model/C01Harness.vo", "Model/Harness.vo"]
 THEOREM_FILES = ["Props/C01.v"]
 COQ_IMPORTS = ("From Coq Require Import List ZArith Bool.\n"
                "From PV Require Import Base.Index Base.Perm Np.Array Model.Sparse Model.Repr Model.Harness Model.C07Ops Model.C07Harness "
-               "Model.C01Conv Model.C01Unique Model.C01Coo Model.C01W3 Model.C01Harness.\n")
+               "Model.C01Conv Model.C01Unique Model.C01Coo Model.C01W3 Model.C01W4 Model.C01Harness.\n")
 RULE = ("dense<->sparse: all shapes with <= 8 cells (exhaustive) + seeded random shapes <= 5 modes / 96 cells; sparsity {0,1,some,all}; stored "
         "orders {sorted,reversed,random}; non-trivial = more than one cell and at least one nonzero; distinct = distinct (op,args); "
         "matricisation: every ordered partition of the modes into (rdims, cdims) for N<=4 (either side may be empty) + seeded sample "
@@ -30,17 +32,35 @@ RULE = ("dense<->sparse: all shapes with <= 8 cells (exhaustive) + seeded random
         "to_sptenmat -> to_sptensor -> full (every step compared); stored zeros {some, all, none, nothing stored} in sparse tensors through "
         "every converter; sptenmat(copy=False) incl. malformed requests; forced N x 1 / 1 x N splits; sums with identical patterns, exact "
         "cancellation, second conversion and parts re-observed; unfoldings beyond 2^15 rows / columns with nonzeros in the last cells; "
-        "Kruskal to_tenmat in every request form, factors of mixed element types; Tucker sparse cores in any stored order")
+        "Kruskal to_tenmat in every request form, factors of mixed element types; Tucker sparse cores in any stored order; "
+        "fourth wave (props/c01_w4.py): samples of every op above re-run with element types {int8, int16, int32, int64, uint8, uint16, "
+        "float32, float64}, subscript / index types {int8 .. uint16}, the layouts above and copy {True, False} through the constructors of "
+        "tensor / sptensor / ktensor / ttensor (dense and sparse core) / sumtensor / tenmat / sptenmat / scipy input; unfoldings with more "
+        "rows or columns than an int8 / uint8 subscript can count; dense tensors reached by a HISTORY — grown by out-of-bounds assignment "
+        "(element by element, one subscript-array assignment, a slab assignment, from the empty tensor()), or the result of permute / "
+        "subtensor extraction / + / reshape / in-bounds assignment — handed to to_sptensor, to_tenmat (partition and fc / bc / t forms), "
+        "the chain, sums (grown dense parts) and Tucker (grown dense core); sparse tensors grown by out-of-bounds assignment (from a "
+        "prefix of the entries, from sptensor(shape=ones), from sptensor()) handed to to_sptenmat / to_sptensor back / full / double / "
+        "sums; values scaled by 2^27 + 1 (int64 / float64) through every value-moving op; Tucker factor matrices as scipy coo matrices "
+        "with ttensor(copy=True / False); the aliases to_tensor() of ktensor / ttensor / sumtensor, tensor.full(), "
+        "tenmat.to_tensor(copy=False) with the tenmat re-observed; rank-0 Kruskal and sparse-core Tucker parts inside sums")
 CORRESPONDENCE_ONLY = [
     "scipy: coo_matrix construction, toarray() (positions summed) and coo.dot(dense matrix) (matrix product) are modelled, not verified",
-    "memory layout / element type of the arrays handed to constructors (C-contiguous, strided views, negative strides, rotated axes; "
-    "int64 / float32 / float64 Kruskal factors): the Coq arrays are abstract F-order lists, so tensor(data, shape, copy) and the layout "
-    "normalisation of tenmat / ktensor / ttensor / sptensor constructors are compared on generated inputs only",
-    "sumtensor.full as executed (`result += part` dispatching on the part's class): the model adds the densified parts (C01_sum; the "
-    "densifications are the proved ones); a second conversion of the same sumtensor and the parts afterwards are observed, not modelled",
+    "memory layout / element type / copy flag of the arrays handed to constructors (C-contiguous, strided views, negative strides, "
+    "rotated axes; int8 .. int64, uint8 / uint16, float32, float64 values; int8 .. uint16 subscript and index arrays; copy=True and "
+    "copy=False of tensor / sptensor / ktensor / ttensor / sumtensor / tenmat / sptenmat): the Coq arrays are abstract F-order lists of "
+    "ring elements, so `the conversion denotes the same array whatever layout / element type / copy flag its operand was built with` "
+    "is compared on generated inputs only (fourth-wave stream props/c01_w4.py re-runs every op with these options)",
+    "sumtensor histories: a second conversion of the same sumtensor and the state of the parts afterwards are observed, not modelled "
+    "(the single conversion as executed is proved: C01_sum_impl)",
     "sptensor.ttm over a LIST of modes other than the Tucker use (mode 0 then dense): single mode n is proved (C01_sptensor_ttm)",
     "sptensor.ttm result container (`Z.nnz <= 0.5 * prod(siz)` is never reached with a dense matrix: Z is an ndarray): modelled as the "
     "to_tensor() branch",
+    "Tucker tensors whose factor matrices are scipy coo matrices (tensor.ttm / sptensor.ttm with a sparse matrix, where the sparse "
+    "result container IS reached): the model has dense factor matrices; full() / double() / to_tensor() are compared with it on "
+    "generated inputs only",
+    "min_split_dims inside ktensor.full is a nested function the translator does not reach: hand transliteration (the Khatri-Rao "
+    "products, ncomponents and ndims it is combined with ARE the generated functions: C01_kruskal_generated)",
 ]
 ASSUMPTIONS = ["numpy transpose / F-order reshape / scatter / nonzero semantics as defined in Np/Array.v and Model/Sparse.v",
                "np.unique(axis=0, return_inverse=True) orders rows lexicographically (first column most significant) and accumarray(func=sum) "
@@ -71,6 +91,9 @@ def gen_cases(rng, tier):
                     if op != "sp_full" and order == "reversed" and not big:
                         continue
                     cases.append(Case(op, {"shape": list(shp), "subs": subs, "vals": vals}, nt))
+    # fourth wave: the same ops on other element types / index types / memory layouts / copy flags (props/c01_w4.py)
+    own = [c for c in cases if c.op in ("to_sptensor", "sp_full", "sp_to_tensor", "sp_double")]
+    cases += gen_cases_w4(rng, tier, rng.sample(own, min(len(own), 240 if big else 60)))
     return cases
 
 
@@ -93,11 +116,12 @@ def _run_impl(c):
     a = c.args
     try:
         if c.op == "to_sptensor":
-            T = tgen.mk_tensor(ttb, np, a["shape"], a["data"])
+            T = mk_dense_opt(ttb, np, a["shape"], a["data"], dt=a.get("dt"), lay=a.get("lay"), copy=a.get("copy", True), grow=a.get("grow"))
             S = T.to_sptensor()
             back = S.to_tensor()
             return {"ok": tgen.obs_sparse(np, S), "back": tgen.obs_dense(np, back)}
-        S = tgen.mk_sptensor(ttb, np, a["shape"], a["subs"], a["vals"])
+        S = mk_sparse_opt(ttb, np, a["shape"], a["subs"], a["vals"], sdt=a.get("sdt"), vdt=a.get("vdt"), slay=a.get("slay"),
+                          vlay=a.get("vlay"), copy=a.get("copy", True), grow=a.get("grow"))
         if c.op == "sp_full":
             return {"ok": tgen.obs_dense(np, S.full())}
         if c.op == "sp_to_tensor":
